@@ -32,9 +32,9 @@ var faultStage = map[string]e.EventType{
 	"no-validations": e.ProfileParsingStart, "no-targetClass": e.ProfileParsingStart, "unparsable-path": e.ProfileParsingStart,
 	"unknown-prefix":        e.RegoGenerationStart,
 	"rego-does-not-compile": e.RegoCompilationStart, "denied-builtin": e.RegoCompilationStart,
-	"data-not-json":       e.InputDataParsingStart,
-	"data-jsonld-rejects": e.InputDataNormalizationStart,
-	"evaluation-error":    e.OpaValidationStart,
+	"data-not-json":           e.InputDataParsingStart,
+	"data-jsonld-rejects":     e.InputDataNormalizationStart,
+	"evaluation-error":        e.OpaValidationStart,
 	"report-building-failure": e.BuildReportStart,
 }
 
@@ -167,14 +167,14 @@ func genC11(entry, fault string, capacity int) func(*rapid.T) c11Case {
 }
 
 type c11Obs struct {
-	events     []e.Event
-	closedAt   string // "", or description of when closure was observed
-	callPanic  string
-	callErr    error
-	report     string
+	events           []e.Event
+	closedAt         string // "", or description of when closure was observed
+	callPanic        string
+	callErr          error
+	report           string
 	openAfterCompile *bool
 	closedByLibrary  bool
-	extra      string
+	extra            string
 }
 
 // consumer drains ch until it is closed.
